@@ -53,7 +53,6 @@ class World:
         self.curve_set, self.cs_desc = gen.gen_curve_set(rng, self.mix, n_curves=rng.choice([1, 2]), n_points=5)
         self.comps = [gen.gen_composition(rng, self.mix, edge=0.05) for _ in range(4)]
         self.t = rng.uniform(300, 360)
-        self.model = rng.choice(["NRTL", "UNIQUAC"])
         self.precision = gen.loguniform(rng, 1e-6, 1e-3)
         self.conds = []
         for mode in ("V", "T", "P"):
@@ -97,7 +96,9 @@ def history_ops(key):
         ops.append({"op": op, "c": rng.randrange(4), "cond": rng.randrange(3), "steps": rng.randint(1, 6), "dt": gen.loguniform(rng, 1e-4, 1e-2),
                     "n": rng.randint(0, 1), "m": rng.randint(0, 1), "idx": rng.randrange(2),
                     # nearby-but-different temperatures across the calls of one history (caches keyed too coarsely show up)
-                    "toff": rng.choice([0.0, 0.0, 0.004, 0.05, 0.3, 1.0, 7.0])})
+                    "toff": rng.choice([0.0, 0.0, 0.004, 0.05, 0.3, 1.0, 7.0]),
+                    # the activity model varies from call to call on the same objects
+                    "model": rng.choice(["NRTL", "UNIQUAC"])})
     return ops
 
 
@@ -124,18 +125,18 @@ def execute(w, o, tmpdir):
     nid = dict(n_first=o["n"], n_second=o["n"], m_first=o["m"], m_second=o["m"])
     T = w.t + o["toff"]
     if op == "flux":
-        return w.pv.calculate_partial_fluxes(T, x, w.precision, tp, pp, calculation_type=w.model)
+        return w.pv.calculate_partial_fluxes(T, x, w.precision, tp, pp, calculation_type=o["model"])
     if op == "permeate_composition":
-        return w.pv.calculate_permeate_composition(w.t, x, w.precision, tp, pp, w.model).p
+        return w.pv.calculate_permeate_composition(w.t, x, w.precision, tp, pp, o["model"]).p
     if op == "separation_factor":
-        return w.pv.calculate_separation_factor(w.t, x, tp, pp, w.precision, w.model)
+        return w.pv.calculate_separation_factor(w.t, x, tp, pp, w.precision, o["model"])
     if op == "ideal_curve":
-        c = w.pv.ideal_diffusion_curve(T, w.comps, tp, pp, w.precision, w.model)
+        c = w.pv.ideal_diffusion_curve(T, w.comps, tp, pp, w.precision, o["model"])
         return [dump_curve(c), c.get_separation_factor, c.get_psi, c.get_selectivity, [[q.value for q in p] for p in c.get_permeances],
                 [y.p for y in c.permeate_composition]]
     if op in ("ideal_iso", "ideal_noniso", "ideal_iso_save"):
         kind = "ideal_non_isothermal_process" if op == "ideal_noniso" else "ideal_isothermal_process"
-        m = getattr(w.pv, kind)(conditions=cond, number_of_steps=o["steps"], delta_hours=o["dt"], precision=w.precision, calculation_type=w.model)
+        m = getattr(w.pv, kind)(conditions=cond, number_of_steps=o["steps"], delta_hours=o["dt"], precision=w.precision, calculation_type=o["model"])
         out = [dump_model(m), m.get_separation_factor, m.get_psi, m.get_selectivity]
         if op == "ideal_iso_save" and w.mix.name in gen.BUILTIN_MIXTURES:
             d = tempfile.mkdtemp(dir=tmpdir)
@@ -145,12 +146,12 @@ def execute(w, o, tmpdir):
     if op == "nonideal_curve":
         c = w.pv.non_ideal_diffusion_curve(diffusion_curve_set=w.curve_set, feed_temperature=w.t, initial_feed_composition=x, delta_composition=0.01,
                                            number_of_steps=o["steps"], permeate_temperature=tp, permeate_pressure=pp, initial_permeances=w.init_perm,
-                                           precision=w.precision, calculation_type=w.model, include_zero=bool(o["idx"]), **nid)
+                                           precision=w.precision, calculation_type=o["model"], include_zero=bool(o["idx"]), **nid)
         return dump_curve(c)
     if op in ("nonideal_iso", "nonideal_noniso"):
         kind = "non_ideal_isothermal_process" if op == "nonideal_iso" else "non_ideal_non_isothermal_process"
         m = getattr(w.pv, kind)(conditions=cond, diffusion_curve_set=w.curve_set, number_of_steps=o["steps"], delta_hours=o["dt"], precision=w.precision,
-                                calculation_type=w.model, initial_permeances=w.init_perm, include_zero=bool(o["idx"]), **nid)
+                                calculation_type=o["model"], initial_permeances=w.init_perm, include_zero=bool(o["idx"]), **nid)
         return [dump_model(m), m.get_psi]
     if op in ("fit", "fit_zero"):
         f = fit(w.meas, n=o["n"], m=o["m"], include_zero=op == "fit_zero", component_index=o["idx"])
@@ -212,7 +213,7 @@ def run_shard(spec, rep):
 def one_history(rep, spec, index, key, tmp, base_builtins):
     w = World(key)
     ops = history_ops(key)
-    case = {"index": index, "key": key, "mixture": w.mdesc, "model": w.model, "history": [o["op"] for o in ops]}
+    case = {"index": index, "key": key, "mixture": w.mdesc, "history": [o["op"] for o in ops]}
     rep.case(case, nontrivial=len(ops) >= 2, cls=f"history|len={len(ops)}")
     before = {k: fingerprint.deep(v) for k, v in w.shared().items()}
     results = []
